@@ -357,6 +357,25 @@ def judge(ctx, repo, text, case, repos=None, repo_id=None):
         if repo_id is None and not both_trunks:
             report = repos.make_report(text)
             printed = str(report.ch_text(no_color=True))
+            # the caller works with what the report hands out - counts the commits of a build before it loops over
+            # them, loops twice, sorts "its" list of builds the other way round and drops the pseudo builds - and prints
+            # the report again: the same report
+            for _rid, rg in (report.data.items() if hasattr(report.data, 'items') else report.data):
+                for br in rg.branches:
+                    for rb in br.rbuilds.values():
+                        got_rc = rb.get_printable_rcommits()
+                        once, twice = list(got_rc), list(got_rc)
+                        if once != twice or (hasattr(got_rc, '__len__') and len(got_rc) != len(once)):
+                            problems.append(("commits-of-a-build-differ-when-they-are-asked-for-twice",
+                                             {"branch": br.branch_name, "first": len(once), "second": len(twice)}))
+                    lst = br.get_rbuilds_list()
+                    if isinstance(lst, list):
+                        lst.reverse()
+                        del lst[:1]
+            ctx.count("reports_printed_again_after_the_caller_worked_with_their_lists")
+            again = str(report.ch_text(no_color=True))
+            if again != printed:
+                problems.append(("report-printed-again-differs", {"first": printed[:200], "second": again[:200]}))
     except Exception as err:
         problems.append(("report-rendering-raises", {"type": type(err).__name__, "msg": str(err)[:200]}))
     if printed is not None:
